@@ -435,7 +435,8 @@ def worker_main(handler):
                 r = handler(j)
             except Exception as ex:  # machinery or impl exception: reported, classified by parent
                 import traceback
-                r = {"job": j, "crash": type(ex).__name__ + ": " + str(ex), "tb": traceback.format_exc()[-2000:]}
+                r = {"job": j, "crash": type(ex).__name__ + ": " + str(ex), "tb": traceback.format_exc()[-2000:],
+                     "exc": type(ex).__name__, "cut_site": _raised_in_code_under_test(ex.__traceback__)}
             out.write(json.dumps(r, default=_jd) + "\n")
             out.flush()
 
@@ -449,6 +450,16 @@ def _jd(o):
 
 
 _CURRENT_CHECK = None
+
+
+def handle_crash(ck, res):
+    """A worker job ended with an exception.  Raised by the code under test on a call the harness makes (and that the
+    unchanged tree accepts): a violation with its site.  Raised by the harness itself: machinery failure."""
+    if res.get("cut_site"):
+        ck.violation("uncaught:%s:%s" % (res.get("exc", "Exception"), res["cut_site"]),
+                     {"msg": str(res.get("crash"))[:300], "tb": str(res.get("tb"))[-600:]}, replay={"job": res.get("job")})
+        return True
+    raise MachineryError("worker crashed: %s\n%s" % (res.get("crash"), res.get("tb")))
 
 
 def _raised_in_code_under_test(tb):
